@@ -7,6 +7,7 @@ CONSTANTS
   LENS = {1, 171, 355}
   HDRS = {"pts"}
   AFS = {"none", "raipcr", "big"}
+  BIGS = {FALSE, TRUE}
   PKTS = {"null", "toobig"}
 VIEW View
 ACTION_CONSTRAINT ExportEdge
